@@ -22,7 +22,8 @@ for ln in r.stdout.splitlines():
     elif "unlisted-signature" in ln and cur:
         checks[cur]["signatures"].append(ln.strip().replace("unlisted-signature ", ""))
 was = meta.get("detected")
-meta.setdefault("history", []).append({"first_result": "missed" if not was else "detected", "checks_then": {k: v.get("exit") for k, v in meta["result"]["checks"].items()}, "strengthening": note})
+then = ", ".join(meta["result"]["checks"])
+meta.setdefault("history", []).append(note if note.startswith("first caught") else ("initially MISSED (%s); strengthened: %s" % (then, note) if not was else note))
 meta["result"]["checks"].update(checks)
 meta["detected"] = any(c["exit"] == 1 for c in meta["result"]["checks"].values())
 meta["ran"].append("vf/tools/mutcheck.sh seeded/%s/patch.diff %s   # after the strengthening" % (name, " ".join(ids)))
